@@ -7,7 +7,7 @@
    single-point entry (admissibility test adm1, then the completion pass), any other batch through the batch entry
    (park everything, completion pass with the sweep test admB), as TasmanianSparseGrid::loadConstructedPoints does. *)
 From TV Require Import Common.Prelude Model.IndexSets Model.RuleLocal Model.Selection Model.Hier Model.LocalGrid Model.Construct.
-From TV Require Import Proofs.IndexSetsProofs Proofs.HierProofs Proofs.LocalGridProofs Proofs.ConstructProofs.
+From TV Require Import Proofs.IndexSetsProofs Proofs.HierProofs Proofs.LocalGridProofs Proofs.ConstructProofs Proofs.LocalComplete.
 From Coq Require Import Permutation QArith Qcanon Ring.
 Local Open Scope Z_scope.
 
@@ -248,6 +248,17 @@ Theorem c09_surrogate_unique_localpoly : forall r order pts (vals : list (idx * 
   forall i, In i (by_level r pts) -> c1 i = c2 i.
 Proof. exact localgrid_unique. Qed.
 
+(* ... unbounded: EVERY well-formed final point set with a complete hierarchy (four binary rules, every order and dimension) has
+   only one coefficient vector that reproduces the delivered values, so every delivery order and batching that ends with that set
+   and reproduces its values ends with the same surrogate - no certificate needed (Proofs/LocalComplete.v) *)
+Theorem c09_surrogate_unique_localpoly_complete_unbounded : forall r order d pts (vals : list (idx * Qc)),
+  binary r -> wellformed d pts -> parent_complete r pts = true ->
+  forall c1 c2 : idx -> Qc,
+  (forall i, In i (by_level r pts) -> Hier.sum Qc 0%Qc Qcplus idx (by_level r pts) (fun j => (Bc r order i j * c1 j)%Qc) = assoc vals i) ->
+  (forall i, In i (by_level r pts) -> Hier.sum Qc 0%Qc Qcplus idx (by_level r pts) (fun j => (Bc r order i j * c2 j)%Qc) = assoc vals i) ->
+  forall i, In i (by_level r pts) -> c1 i = c2 i.
+Proof. exact localpoly_complete_unique. Qed.
+
 (* ---- non-vacuity: concrete histories ---- *)
 Example c09_example_sequence :   (* target {0,1,2}x{0,1} delivered in two orders / batchings: same final set, nothing lost on the way *)
   let st0 : cstate Z := mkcs [] [] in
@@ -290,3 +301,4 @@ Print Assumptions c09_global_candidate_request_refuted.
 Print Assumptions c09_surrogate_unique.
 Print Assumptions c09_single_point_is_forward_step.
 Print Assumptions c09_surrogate_unique_localpoly.
+Print Assumptions c09_surrogate_unique_localpoly_complete_unbounded.
